@@ -173,7 +173,8 @@ def random_case(rng, tier):
         if rng.random() < 0.5:
             position = rng.randint(0, ticks + 2)
         how = 'value' if rng.random() < 0.75 else 'exc'
-        schedule.append({'act': 'complete', 'fut': fut, 'how': how, 'v': f'v{fut}', 'at': position})
+        value = f'v{fut}' if rng.random() < 0.85 else '__uncopyable__'
+        schedule.append({'act': 'complete', 'fut': fut, 'how': how, 'v': value, 'at': position})
     for index in range(len(children)):
         if rng.random() < 0.25:
             schedule.append({'act': 'killchild', 'child': index, 'at': rng.randint(0, ticks + 2), 'msg': f'kill-c{index}'})
